@@ -128,10 +128,11 @@ class Rec:
         self.trace.append(("task_end", e.name))
 
 
-def run_dag(dagname, optimize, parallel, batch_size, use_backups, outcomes, dts, perms, max_running=None):
+def run_dag(dagname, optimize, parallel, batch_size, use_backups, outcomes, dts, perms, max_running=None, max_fail=0):
     amd = _load()
     dag, info, producers = build_dag(dagname, optimize)
     w = sched.WORLD = sched.World(outcomes, dts, perms, max_running)
+    w.max_fail = max_fail
     trace = w.events
     # the op a submission belongs to is identified by the pipeline config it is submitted with (batch refills do not
     # pass name=...); create-arrays has config None
@@ -170,7 +171,11 @@ def run_dag(dagname, optimize, parallel, batch_size, use_backups, outcomes, dts,
 
         kwargs["create_backup_futures_func"] = create_backup2
     co = amd(create, dag, callbacks=[cb], compute_arrays_in_parallel=parallel, **kwargs)
-    sched.run_coro(co)
+    try:
+        sched.run_coro(co)
+    except sched.TaskError:
+        # the computation surfaced a task's error and stopped (legitimate, C08's subject): nothing ran afterwards
+        return None, info, producers
     return trace, info, producers
 
 
@@ -216,7 +221,9 @@ def make(dagname, optimize, parallel, batch_size, use_backups, n_o, n_d, n_p, tw
         outcomes = [kw[f"o{k}"] for k in range(n_o)]
         dts = [kw[f"d{k}"] for k in range(n_d)]
         perms = [kw[f"p{k}"] for k in range(n_p)]
-        trace, info, producers = run_dag(dagname, optimize, parallel, batch_size, use_backups, outcomes, dts, perms, max_running)
+        trace, info, producers = run_dag(dagname, optimize, parallel, batch_size, use_backups, outcomes, dts, perms, max_running, max_fail=(1 if use_backups else 0))
+        if trace is None:
+            return
         sx.note(trace)
         check_barrier(trace, info, producers)
         check_events(trace, info)
@@ -259,8 +266,8 @@ def single_threaded(dagname, optimize, **kw):
     check_events(trace, info2)
 
 
-def vars_(n_o, n_d, n_p):
-    return [(f"o{k}", 0, 1) for k in range(n_o)] + [(f"d{k}", 0, 6) for k in range(n_d)] + [(f"p{k}", 0, 3) for k in range(n_p)]
+def vars_(n_o, n_d, n_p, fail=False):
+    return [(f"o{k}", 0, 2 if fail else 1) for k in range(n_o)] + [(f"d{k}", 0, 6) for k in range(n_d)] + [(f"p{k}", 0, 3) for k in range(n_p)]
 
 
 def setup():
@@ -306,10 +313,10 @@ def obligations(tier):
             combos.append((dn, 0, False, 2, True, 40, 90, 12, 2))
     for dn, opt, par, bs, ub, n_o, n_d, n_p, mr in combos:
         name = f"barrier[{dn},optimize={opt},parallel={int(par)},batch={bs},backups={int(ub)}]"
-        o.append(Obl(name, make(dn, opt, par, bs, ub, n_o, n_d, n_p, max_running=mr), vars_(n_o, n_d, n_p), setup=setup, functions=fns, wall_s=wall,
+        o.append(Obl(name, make(dn, opt, par, bs, ub, n_o, n_d, n_p, max_running=mr), vars_(n_o, n_d, n_p, fail=ub), setup=setup, functions=fns, wall_s=wall,
                      bounds=f"real finalized plan '{dn}' (optimize_graph={bool(opt)}); compute_arrays_in_parallel={par}, batch_size={bs}, use_backups={ub}; "
                             f"<= {n_o} future observations (every wake-up x pending future: running or succeeded) of which at most {mr} 'still running', <= {n_d} clock readings, <= {n_p} order/interleaving choices",
-                     outside="task failures (C08), longer schedules (counted as unreachable, not as success), real event loop / pools / aiostream",
+                     outside="more than one task failure (only with backups on; C08 decides the map itself), longer schedules (counted as unreachable, not as success), real event loop / pools / aiostream",
                      stubs=["sched.ShimAsyncio", "sched.ShimTime", "sched.ShimStream"],
                      witness_rule=lambda m: any(v == 0 for k, v in m.items() if k.startswith("o"))))
     o.append(Obl("twin:barrier[diamond,parallel]", make("diamond", 0, True, None, False, 30, 40, 12, twin=True, max_running=0), vars_(30, 40, 12), setup=setup,
